@@ -302,7 +302,7 @@ where
   let s = &(*shares.peek().ok_or("no shares passed")?).clone();
   let shares: Vec<star_sharks::Share> = shares.cloned().map(|s| s.S).collect();
   let key = Sharks::from(s.A.clone()).recover(&shares)?;
-  let K = key[..16].to_vec();
+  let K = key.get(..16).ok_or("recovered key is too short")?.to_vec();
 
   let mut key = Strobe::new(b"adss encrypt", SecParam::B128);
   key.key(&K, false);
